@@ -64,16 +64,146 @@ package bucketteer
 //@   loop 0 use forall t int :: ancBelow(t, index+1)
 //@   loop 0 decreases max - index
 
+// ---- eytzinger layout: subtree sizes of the implicit tree (anc and its lemmas are in theories/heap_tree.vcl) ----
+// sz(n, k) = number of nodes of the subtree rooted at k (1-based) in the implicit tree with n nodes.
+
+//@ spec func sz(n int, k int) int = ite(k >= 1 && k <= n, 1 + sz(n, 2*k) + sz(n, 2*k+1), 0)
+
+//@ lemma szNonneg(n int, k int)
+//@   requires k >= 1
+//@   ensures sz(n, k) >= 0
+//@   decreases ite(k <= n, n + 1 - k, 0)
+//@   induct szNonneg(n, 2*k)
+//@   induct szNonneg(n, 2*k+1)
+//@   use unfold(sz(n, k))
+
+//@ lemma ancDisjoint(j int, k int)
+//@   requires k >= 1
+//@   ensures !(anc(j, 2*k) && anc(j, 2*k+1))
+//@   decreases ite(j >= 0, j, 0)
+//@   induct ancDisjoint(j/2, k)
+//@   use unfold(anc(j, 2*k)) && unfold(anc(j, 2*k+1)) && unfold(anc(j/2, 2*k)) && unfold(anc(j/2, 2*k+1))
+
+//@ lemma szStep(n int, k int)
+//@   requires n >= 1 && k >= 1
+//@   ensures sz(n, k) == sz(n-1, k) + ite(anc(n, k), 1, 0)
+//@   decreases ite(k <= n, n + 1 - k, 0)
+//@   induct szStep(n, 2*k)
+//@   induct szStep(n, 2*k+1)
+//@   use unfold(sz(n, k)) && unfold(sz(n-1, k)) && unfold(anc(n, k)) && ancDisjoint(n, k) && (n > k ==> ancSplit(n, k))
+//@   use unfold(sz(n, 2*k)) && unfold(sz(n, 2*k+1)) && unfold(sz(n-1, 2*k)) && unfold(sz(n-1, 2*k+1))
+
+//@ lemma szRoot(n int)
+//@   requires n >= 0
+//@   ensures sz(n, 1) == n
+//@   decreases n
+//@   induct szRoot(n-1)
+//@   use unfold(sz(n, 1)) && (n >= 1 ==> szStep(n, 1)) && (n >= 1 ==> ancRoot(n))
+
+// lo(n, k) = in-order rank of the first node of the subtree rooted at k; node k itself has rank lo(n, k) + sz(n, 2k).
+//@ spec func lo(n int, k int) int = ite(k <= 1, 0, ite(k % 2 == 0, lo(n, k/2), lo(n, k/2) + sz(n, k-1) + 1))
+
+// Nesting: the in-order ranks of the subtree of j lie inside those of any ancestor k.
+//@ lemma loRange(n int, j int, k int)
+//@   requires k >= 1 && j <= n && anc(j, k)
+//@   ensures lo(n, k) <= lo(n, j) && lo(n, j) + sz(n, j) <= lo(n, k) + sz(n, k)
+//@   decreases ite(j >= 0, j, 0)
+//@   induct loRange(n, j/2, k)
+//@   use unfold(anc(j, k)) && unfold(lo(n, j)) && unfold(sz(n, j/2)) && szNonneg(n, j) && szNonneg(n, 2*(j/2)) && szNonneg(n, 2*(j/2)+1)
+
+// Search-tree order of the layout: everything below the left child of k has a smaller rank than k, below the right child a larger one.
+//@ lemma eytzOrder(n int, j int, k int)
+//@   requires k >= 1 && k <= n && 1 <= j && j <= n
+//@   ensures anc(j, 2*k) ==> lo(n, j) + sz(n, 2*j) < lo(n, k) + sz(n, 2*k)
+//@   ensures anc(j, 2*k+1) ==> lo(n, j) + sz(n, 2*j) > lo(n, k) + sz(n, 2*k)
+//@   use (anc(j, 2*k) ==> loRange(n, j, 2*k)) && (anc(j, 2*k+1) ==> loRange(n, j, 2*k+1))
+//@   use unfold(sz(n, j)) && unfold(lo(n, 2*k)) && unfold(lo(n, 2*k+1)) && szNonneg(n, 2*j) && szNonneg(n, 2*j+1)
+
+// eytzinger(in, out, i, k) copies the next sz(len(in), k) elements of `in`, starting at i, into the subtree rooted at k:
+// node j of that subtree receives the element of in-order rank lo(n, j) + sz(n, 2j); all other nodes keep their value.
+//@ func eytzinger
+//@   mode int
+//@   requires k >= 1 && 0 <= i && i + sz(len(in), k) <= len(in) && len(in) <= len(out) && len(in) <= 2305843009213693952
+//@   requires i == lo(len(in), k) && ref(in) != ref(out)
+//@   modifies out
+//@   ensures result == i + sz(len(in), k)
+//@   ensures forall j int :: 1 <= j && j <= len(in) && anc(j, k) ==> out[j-1] == in[lo(len(in), j) + sz(len(in), 2*j)]
+//@   ensures forall j int :: 1 <= j && j <= len(out) && !anc(j, k) ==> out[j-1] == old(out[j-1])
+//@   use szNonneg(len(in), 2*k) && szNonneg(len(in), 2*k+1) && unfold(sz(len(in), k))
+//@   use unfold(lo(len(in), 2*k)) && unfold(lo(len(in), 2*k+1)) && ancDisjoint(k, k) && unfold(anc(k, k))
+//@   use forall j int :: j > k ==> ancSplit(j, k)
+//@   use forall j int :: ancBelow(j, k) && ancBelow(j, 2*k) && ancBelow(j, 2*k+1) && ancDisjoint(j, k)
+
+// sortWithCompare: sort.Slice is handed a closure that calls the `compare` closure; vcgo models sort.Slice only for a
+// literal integer comparator, so that call is abstracted (all heaps havoced) and nothing about the resulting order can be
+// stated. noframe: `modifies a` is assumed, not checked (sort.Slice only swaps elements of a and calls compare).
+//@ func sortWithCompare
+//@   mode int
+//@   requires compare != nil && len(a) <= 2305843009213693952
+//@   modifies a
+//@   noframe
+//@   use szRoot(len(a)) && unfold(lo(len(a), 1))
+
 // ---- writer: clean set (sort + dedup) ----
 // sort.Slice with an integer `<` comparator is a trusted model: result ordered, same elements (option sort-members).
 
 //@ func getCleanSet
 //@   mode int
+//@   option sort-no-distinct
+//@   option sort-members-bwd
 //@   modifies entries
 //@   ensures fresh(result) && len(result) <= len(entries)
 //@   ensures forall a, b int :: 0 <= a && a < b && b < len(result) ==> result[a] < result[b]
+//@   ensures forall b int :: 0 <= b && b < len(entries) ==> exists a int :: 0 <= a && a < len(result) && result[a] == old(entries[b])
 //@   loop 0 invariant 0 <= i && i <= len(entries) && len(out) <= i && (i > 0 ==> len(out) >= 1) && fresh(out) && cap(out) >= len(entries)
 //@   loop 0 invariant forall a, b int :: 0 <= a && a < b && b < len(entries) ==> entries[a] <= entries[b]
 //@   loop 0 invariant forall a, b int :: 0 <= a && a < b && b < len(out) ==> out[a] < out[b]
 //@   loop 0 invariant forall a int :: 0 <= a && a < len(out) && i > 0 ==> out[a] <= entries[i-1]
+//@   loop 0 invariant forall b int :: 0 <= b && b < len(entries) ==> exists c int :: 0 <= c && c < len(entries) && entries[c] == old(entries[b])
+//@   loop 0 invariant forall b int :: 0 <= b && b < i ==> exists a int :: 0 <= a && a < len(out) && out[a] == entries[b]
 //@   loop 0 decreases len(entries) - i
+
+// ---- writer: header ----
+// Encoded size of a Meta (indexmeta wire format: count byte, then per pair: key length byte, key, value length byte, value).
+//@ spec func metaLen(m indexmeta.Meta, k int) int = ite(k <= 0, int(1), metaLen(m, k-1) + 2 + len(m.KeyVals[k-1].Key) + len(m.KeyVals[k-1].Value))
+
+// createHeader: the body is a sequence of calls into the third-party borsh encoder (gagliardetto/binary) writing to a
+// bytes.Buffer, whose content vcgo does not model: TRUSTED. Stated assumption: the encoder writes fixed-width integers, so
+// the header length is 4 (size) + 8 (magic) + 8 (version) + meta + 8 (count) + 65536 * (2 + 8) and in particular does
+// not depend on headerSizeIn or on the offsets; an error yields no header. (The body passes the safety sweep untrusted.)
+//@ func createHeader
+//@   mode int
+//@   trusted
+//@   ensures result1 != nil ==> len(result0) == 0
+//@   ensures result1 == nil ==> fresh(result0) && len(result0) == 655388 + metaLen(meta, len(meta.KeyVals))
+
+//@ func overwriteFileContentAt
+//@   mode int
+//@   requires file != nil
+//@   ensures result == nil ==> true
+
+// seal: ghost written(out) counts the bytes accepted by the bufio.Writer. B = old(written(out)) + headerSize is the file
+// position where the bucket area starts (the reader's contentReader starts there). Loop 1 invariant: the bytes written so
+// far are exactly header + previousOffset, so the offset recorded for a prefix (previousOffset at the head of its
+// iteration) is the position, relative to B, where that bucket's record `uint32 count, count * uint64` starts, and
+// thisSize is the number of bytes written for it.
+//@ func seal
+//@   mode int
+//@   requires out != nil && prefixToHashes != nil
+//@   requires forall q int :: 0 <= q && q < 65536 ==> len(prefixToHashes[q]) <= 4294967295
+//@   modifies all
+//@   ensures result2 != nil ==> len(result0) == 0 && result1 == 0
+//@   ensures result2 == nil ==> int(result1) == written(out) - old(written(out))
+//@   ensures result2 == nil ==> len(result0) == headerSize && 655388 <= headerSize && headerSize <= 785949
+//@   ensures result2 == nil ==> int(result1) == headerSize + int(previousOffset)
+//@   ensures result2 == nil ==> forall q int :: 0 <= q && q < 65536 ==> prefixToOffset[q] + 4 <= previousOffset
+//@   ensures result2 == nil ==> forall q, r int :: 0 <= q && q < r && r < 65536 ==> prefixToOffset[q] + 4 <= prefixToOffset[r]
+//@   loop 1 invariant headerSize == len(header) && 655388 <= headerSize && headerSize <= 785949
+//@   loop 1 invariant len(header) == 655388 + metaLen(meta, len(meta.KeyVals))
+//@   loop 1 invariant forall q int :: 0 <= q && q < 65536 ==> len(prefixToHashes[q]) <= 4294967295
+//@   loop 1 invariant previousOffset <= uint64(rangeidx1) * 34359738368
+//@   loop 1 invariant headerSize + int(previousOffset) == written(out) - old(written(out))
+//@   loop 1 invariant int(totalWritten) == headerSize + int(previousOffset)
+//@   loop 1 invariant forall q int :: 0 <= q && q < rangeidx1 ==> prefixToOffset[q] + 4 <= previousOffset
+//@   loop 1 invariant forall q, r int :: 0 <= q && q < r && r < rangeidx1 ==> prefixToOffset[q] + 4 <= prefixToOffset[r]
+//@   loop 2 invariant written(out) - old(written(out)) == headerSize + int(previousOffset) + 4 + 8*rangeidx2
